@@ -95,6 +95,8 @@ func tokValue(label string) any {
 		return "abc"
 	case "str-utf8":
 		return "héllo→日本"
+	case "str-astral": // characters of 1, 2, 3 and 4 bytes, the 4-byte ones at several alignments
+		return "a\U0001F600é\U0001D11E→\U0001F600\U0001F601x\U00010000"
 	case "bytes-empty":
 		return []byte{}
 	case "bytes":
